@@ -139,8 +139,18 @@ impl<P: RuntimeProvider + Send + Sync> SqliteZoneHandler<P> {
             rooted(&config.journal_path, root_dir)
         };
 
+        // A journal without a single record says nothing about the zone: it is what a stop
+        // between the creation of the journal file and the commit of the initial zone dump
+        // leaves behind.  Only a journal that holds records takes precedence over the zone file.
+        let journal_has_records = journal_path.exists()
+            && Journal::from_file(&journal_path)
+                .map_err(|e| format!("error opening journal: {journal_path:?}: {e}"))?
+                .iter()
+                .next()
+                .is_some();
+
         #[cfg_attr(not(feature = "__dnssec"), allow(unused_mut))]
-        let mut handler = if journal_path.exists() {
+        let mut handler = if journal_has_records {
             // load the zone
             info!("recovering zone from journal: {journal_path:?}",);
             let journal = Journal::from_file(&journal_path)
